@@ -47,7 +47,7 @@ def run(ctx):
                 "payload = a burst valid for the indicated kind (data bursts by data type, voice bursts, sync / wake-up). distinct = frames.")
     ctx.assumptions += [
         "a wake-up call type (2, 12) indicates a wake-up burst in every slot but the sync slot; such frames are generated with the empty payload of the captured wake-up frames (a data payload there is not 'a payload that parses as the indicated kind')",
-        "well-formed frame: 0x5A5A, colour nibble repeated four times, low octet of both id fields zero, payload pad octet zero, timeslot 0x1111/0x2222; frames with unknown packet / frame types are folded with a warning by design and are not generated",
+        "well-formed frame: 0x5A5A, colour nibble repeated four times, low octet of both id fields zero, timeslot 0x1111/0x2222 (the 34th payload octet is arbitrary); frames with unknown packet / frame types are folded with a warning by design and are not generated",
         "colour code and ids 'as the frame encodes them' are compared on the decoded IPSC object (a burst only knows the colour code of its own slot type / EMB and guesses a zero destination from its payload); the two decoders are also compared on the burst's own ids",
     ]
     core.setup_repo_path()
@@ -58,6 +58,14 @@ def run(ctx):
     rng = random.Random(ctx.seed)
     frames = [s for s in harvest("hytera/test_hytera_ipsc.py") + harvest("etsi/layer2/test_burst.py") + harvest("tools/test_pcap_tool.py")
               if len(s) == 72 and s[2:4] == b"ZZ"]
+    # ... and the example frames documented in the library's own sources (docstrings of the sync / wake-up classes)
+    import glob
+    import re
+    for src in sorted(glob.glob(os.path.join(core.REPO, "okdmr", "dmrlib", "hytera", "*.py"))):
+        for h in re.findall(r"\b([0-9a-fA-F]{144})\b", open(src).read()):
+            f_ = bytes.fromhex(h)
+            if f_[2:4] == b"ZZ" and f_ not in frames:
+                frames.append(f_)
     ctx.note("repository_frames", len(frames))
     kinds = {"CSBK/pre": "CSBK", "CSBK/other": "CSBK", "DH/C": "DataHeader", "DH/U": "DataHeader", "VLC": "VoiceLCHeader", "TLC": "TerminatorWithLC",
              "PI": "PIHeader", "R12/u": "Rate12Data", "R12/c": "Rate12Data", "R34/u": "Rate34Data"}
@@ -106,7 +114,7 @@ def run(ctx):
         f = (res(2) + b"ZZ" + bytes([rng.choice([0, 1, 255, rng.randrange(256)])]) + res(3)
              + bytes([rng.choice([65, 66, 67, 1])]) + res(7)
              + (b"\x11\x11" if rng.random() < 0.5 else b"\x22\x22") + slot.to_bytes(2, "little") + bytes([cc | cc << 4] * 2)
-             + frame_type.to_bytes(2, "little") + res(2) + byteswap_bytes(burst + b"\x00") + res(2) + bytes([call])
+             + frame_type.to_bytes(2, "little") + res(2) + byteswap_bytes(burst + res(1)) + res(2) + bytes([call])
              + (ident() << 8).to_bytes(4, "little") + (ident() << 8).to_bytes(4, "little") + res(1))
         frames.append(f)
     # no vacuity: every member of the library's own slot / frame / packet / call type enumerations occurs in the generated frames
